@@ -43,7 +43,7 @@ Doc == [
   is_16bit_pipeline            |-> Flag,                        \* [G] [0,1]
   encoder_color_format         |-> R(1, 1, {0, 2, 3}, TRUE),    \* [G] [0-3] but [D] "Only support 420 now"
   compressed_ten_bit_format    |-> R(0, 0, {1}, TRUE),          \* [G] [0-1] but [D] not supported in this version
-  profile                      |-> R(0, 0, {1, 2}, TRUE),       \* [G] [0-2]; [D] 1 needs 4:4:4, 2 needs 4:2:2 (not supported)
+  profile                      |-> R(0, 2, {}, TRUE),           \* [G] [0-2]; what each profile can signal: ProfileOut below
   tier                         |-> Flag,                        \* [H] 0 = Main, 1 = High
   stat_report                  |-> Flag,                        \* [G][D]
   qp                           |-> R(0, 63, {}, TRUE),          \* [G][D] [0-63]
@@ -226,7 +226,14 @@ QBad(a) == \E i \in 1 .. Len(a) : a[i] < -256 \/ a[i] > 255
 QOffOut(c) == c.use_fixed_qindex_offsets = 1 /\ (QBad(c.qindex_offsets) \/ QBad(c.chroma_qindex_offsets))
 QOffAmb(c) == c.use_fixed_qindex_offsets # 1 /\ (QBad(c.qindex_offsets) \/ QBad(c.chroma_qindex_offsets))
 
-CoupledOut(c) == \/ IntraPeriodOut(c) \/ LadOut(c) \/ CvbrLadOut(c) \/ QpOrderOut(c) \/ TilesOut(c)
+(* [G] 0 main, 1 high, 2 professional.  What a sequence header of each profile can signal is fixed by the AV1 syntax  *)
+(* (color_config: profile 0 is 4:2:0 / monochrome, profile 1 is 4:4:4, profile 2 is 4:2:2 unless the depth is 12) and is *)
+(* what the library's own rejection messages state: "Non 420 color format requires profile 1 or 2", "Profile 1 requires *)
+(* 4:4:4", "Profile 2 bit-depth <= 10 requires 4:2:2".  Formats: 0 = 4:0:0, 1 = 4:2:0, 2 = 4:2:2, 3 = 4:4:4.              *)
+ProfileOut(c) == \/ (c.profile = 0 /\ c.encoder_color_format \in {2, 3})
+                 \/ (c.profile = 1 /\ c.encoder_color_format # 3)
+                 \/ (c.profile = 2 /\ c.encoder_bit_depth <= 10 /\ c.encoder_color_format # 2)
+CoupledOut(c) == \/ ProfileOut(c) \/ IntraPeriodOut(c) \/ LadOut(c) \/ CvbrLadOut(c) \/ QpOrderOut(c) \/ TilesOut(c)
                  \/ IbcOut(c) \/ TwoPassOut(c) \/ FrameRateOut(c) \/ FrameRateFracOut(c) \/ ParityOut(c)
                  \/ HmeOut(c) \/ HmeSumsOut(c) \/ ManualOut(c) \/ QOffOut(c)
 CoupledAmb(c) == CvbrLadAmb(c) \/ FrameRateAmb(c) \/ FrameRateFracAmb(c) \/ HmeAmb(c) \/ ManualAmb(c) \/ QOffAmb(c)
@@ -243,6 +250,7 @@ Verdict(c) == IF Out(c) THEN "reject" ELSE IF Amb(c) THEN "skip" ELSE "accept"
 (* which documented clause makes c invalid (for the report) *)
 Why(c) == {f \in Fields : FieldOut(f, c)}
           \cup (IF IntraPeriodOut(c) THEN {"intra_period"} ELSE {})
+          \cup (IF ProfileOut(c) THEN {"profile vs colour format / bit depth"} ELSE {})
           \cup (IF LadOut(c) THEN {"look_ahead"} ELSE {})
           \cup (IF CvbrLadOut(c) THEN {"cvbr_lad"} ELSE {})
           \cup (IF QpOrderOut(c) THEN {"min>max qp"} ELSE {})
